@@ -21,6 +21,9 @@ func init() {
 
 func runC12(c *Ctx) {
 	checkNoSuccessorSentinel(c)
+	// R13: restoring a snapshot returns the staged state at the time of *that* snapshot: its id is never
+	// given to a later snapshot while it can still be restored
+	checkIDsNeverReused(c, "C12.R13 snapshot-id-never-reused", "db/diffdb", "Database")
 	p := c.P
 	c.Assume = append(c.Assume, "equivalence with a sorted-map model, bound inclusivity for keys of different lengths and pebble's scan semantics are value-level and not decided")
 	const dbT = "db/diffdb.Database"
